@@ -110,12 +110,12 @@ def canon_tag(kind, tag):
         m = _script_default.fullmatch(tag)
         if m:
             return (canon_url(m.group(1)), "")
-        m = re.search(r'src="([^"]+)"', tag.strip())
+        m = re.search(r'(?<![\w-])src="([^"]+)"', tag.strip())
     else:
         m = _link_default.fullmatch(tag)
         if m:
             return (canon_url(m.group(1)), m.group(2))
-        m = re.search(r'href="([^"]+)"', tag.strip())
+        m = re.search(r'(?<![\w-])href="([^"]+)"', tag.strip())
     url = m.group(1) if m else None
     if url is not None and not url.strip():
         url = None
@@ -226,6 +226,7 @@ def run_process(content, typ):
 # page programs
 # ------------------------------------------------------------------------------------------------
 # A program is JSON: {"classes": [cls...], "page": nodes, "shell": ..., "js_ph": n, "css_ph": n}
+#   mjs entries: "path" | "TAG:path" (SafeString <script src=path defer>) | ["raw", tag html, url] (SafeString, as written)
 #   cls   = {"name", "base": i|None, "base2": i|None, "extend": absent|False|[i...], "js", "css", "mjs", "mcss", "jsdata", "cssdata",
 #            "root", "tpl": nodes}
 #   nodes = ["t", text] | ["c", j, body|None] | ["cf", j, [[slot, nodes, cond]...]] | ["dyn", j, body|None, "name"|"var"]
@@ -609,7 +610,8 @@ class Built:
             if c["mjs"] or c["mcss"] is not None or "extend" in c:
                 m = {}
                 if c["mjs"]:
-                    m["js"] = [mark_safe('<script src="%s" defer></script>' % f[4:]) if f.startswith("TAG:") else f for f in c["mjs"]]
+                    m["js"] = [mark_safe(f[1]) if isinstance(f, list) else
+                               mark_safe('<script src="%s" defer></script>' % f[4:]) if f.startswith("TAG:") else f for f in c["mjs"]]
                 if c["mcss"] is not None:
                     m["css"] = c["mcss"]
                 if "extend" in c:
@@ -654,7 +656,7 @@ class Built:
     def declared(self, i, kind, _seen=None):
         c = self.prog["classes"][i]
         if kind == "js":
-            own = [f[4:] if f.startswith("TAG:") else f for f in c["mjs"]]
+            own = [f[2] if isinstance(f, list) else f[4:] if f.startswith("TAG:") else f for f in c["mjs"]]   # ["raw", tag html, url]
         else:
             m = c["mcss"]
             own = [] if m is None else (list(m) if isinstance(m, list) else [f for fs in m.values() for f in fs])
